@@ -739,8 +739,8 @@ TRUSTED = ['pyvc symbolic executor; generator Quantity.__unpack evaluated eagerl
            'EXPECTED registration map (contracts/C20.py) is the specification of which function follows which rule']
 ASSUMPTIONS = ['three symbolic base dimensions in the handler contracts / two named bases in the algebra contracts (the code is generic in base names); exponents are arbitrary rationals (reals)',
                'Quantity.__locate, __attribute and the evaluate handler are covered by the registration table only']
-from contracts import C20_ops, C20_strings
-EXTENSIONS = [C20_ops, C20_strings]
+from contracts import C20_ops, C20_strings, C20_unit
+EXTENSIONS = [C20_ops, C20_strings, C20_unit]
 for _m in EXTENSIONS:
     TRUSTED += getattr(_m, 'TRUSTED', [])
     ASSUMPTIONS += getattr(_m, 'ASSUMPTIONS', [])
